@@ -162,6 +162,9 @@ def run_step(step, path, device_pin, devstate_path=None):
     class _P:
         pass
     with Stack(dev, pin=_P()) as s:
+        # ledgerblue's TCP transport surfaces failures as socket errors, which the dongle
+        # layer does not classify; here they come in the shapes it does classify
+        s.bus.tcp_faults_as_hid = True
         mon = FileMon(s.bus, path, step.get("fs_fault"), step.get("crash"))
         lp.open = mon
         try:
@@ -417,8 +420,8 @@ def gen_histories(spec, tmpdir):
             force = (start == "forced")
             for (i, cmd) in idx:
                 for o in outcomes:
-                    if platform == "sgx" and o[0] in ("timeout", "write_error"):
-                        continue
+                    # (on SGX these are reported the way the HID transport reports them:
+                    # see run_step)
                     cases.append({"platform": platform, "start": start, "steps": [
                         {"platform": platform, "force": force, "plan": {str(i): list(o)}},
                         {"platform": platform, "force": force},
